@@ -103,9 +103,10 @@ Proof. vm_compute. repeat split; try reflexivity; discriminate. Qed.
    non-existent thread is a no-op.  [mkCfg lock flagfirst] selects the code: [mkCfg true true]
    is /repo after the two C18 repairs; [false] = the code before the respective repair.
    The queue order is the tuple order on (msg_type, msg_queue_count, now). *)
-From PyDcop Require M_MessagingMT P_MessagingMT.
+From PyDcop Require M_MessagingMT P_MessagingMT P_MessagingMT2.
 Module MT := M_MessagingMT.
 Module PMT := P_MessagingMT.
+Module PMT2 := P_MessagingMT2.
 
 (* (1) exactly once, for every configuration and interleaving: the entries put are pairwise
    distinct posts of the programs (thread, index), each entry put is either still queued or was
@@ -175,6 +176,47 @@ Theorem mt_shutdown_oldloop_refuted :
     let st2 := MT.run c st1 sched2 in
     MT.g_evt st1 = false /\ In e (MT.g_puts st1) /\ MT.g_adone st2 = true /\ MT.g_handled st2 = [].
 Proof. exact PMT.mt_shutdown_oldloop_refuted_l. Qed.
+
+(* with the lock, one type is handled in the order of the puts whoever the senders are: the
+   counters of the puts grow strictly, and so do those of the handled messages of a type *)
+Theorem mt_fifo_put_order : forall ff progs ctl sched ty,
+  let st := MT.exec (MT.mkCfg true ff) progs ctl sched in
+  StronglySorted Z.lt (map MT.e_cnt (MT.g_puts st)) /\
+  StronglySorted Z.lt (map MT.e_cnt (filter (fun e => MT.e_type e =? ty) (MT.g_handled st))).
+Proof. exact PMT2.mt_fifo_put_order_l. Qed.
+
+(* the lock added by fix 1 brings no deadlock: in every reachable state its holder is a live
+   thread inside the critical section and releases it within five of its own steps *)
+Theorem mt_lock_released : forall ff progs ctl sched i,
+  let c := MT.mkCfg true ff in
+  let st := MT.exec c progs ctl sched in
+  MT.g_lock st = Some i ->
+  exists k, (k <= 5)%nat /\ MT.g_lock (MT.run c st (repeat (MT.CPost i) k)) = None.
+Proof. exact PMT2.mt_lock_released_l. Qed.
+
+(* [late_registration_in_order] does NOT lift to interleavings (finding
+   C18-registration-races-with-deferring-post).  Micro-step model of posts to one late
+   destination (look up; subscribe; append to _failed | put) against
+   Discovery.register_computation (table write; per callback: snapshot _failed, replay = put +
+   remove; drop the one-shot callbacks), the queue as the list of ids in put order:
+   (a) the destination registers between a post's unknown-destination test and its deferral:
+       everybody finishes, the destination is known, the message stays deferred;
+   (b) the sender's next post goes in directly between the table write and the replay of its
+       deferred one: handled 2 before 1. *)
+Theorem mt_late_registration_refuted :
+  (exists progs sched, let s := MT.rrun progs sched in
+     MT.rfinished s = true /\ MT.r_known s = true /\ MT.r_failed s = [1] /\ MT.r_queue s = []) /\
+  (exists sched, let s := MT.rrun [[1; 2]] sched in
+     MT.rfinished s = true /\ MT.r_known s = true /\ MT.r_failed s = [] /\ MT.r_queue s = [2; 1]).
+Proof. exact PMT2.mt_late_registration_refuted_l. Qed.
+
+(* what does hold in that model, for every interleaving: nothing is lost or duplicated -- the
+   posted ids are exactly the queued ones, the deferred ones and the ones not yet posted *)
+Theorem mt_registration_conserves : forall progs sched,
+  let s := MT.rrun progs sched in
+  MT.r_rm s = None ->
+  Permutation (List.concat progs) (MT.r_queue s ++ MT.r_failed s ++ PMT2.pending s).
+Proof. exact PMT2.mt_reg_conservation_l. Qed.
 
 (* non-vacuity: two threads contending for the lock, two types, a clean shutdown that lets one
    post through (its _shutdown test came first) and drops the last one; quiescent, loop left *)
